@@ -144,13 +144,26 @@ def if_chain(fn: ast.AST) -> list[tuple[Optional[ast.AST], list[ast.stmt]]]:
         raise AnalysisError(f"{getattr(fn, 'name', '?')}: no if/elif chain found")
     arms = []
     cur: Optional[ast.If] = chain
+    rest = list(fn.body[fn.body.index(chain) + 1 :])
+
+    def leaves(body) -> bool:
+        return bool(body) and isinstance(body[-1], (ast.Return, ast.Raise))
+
     while cur is not None:
         arms.append((cur.test, cur.body))
         if len(cur.orelse) == 1 and isinstance(cur.orelse[0], ast.If):
             cur = cur.orelse[0]
+        elif cur.orelse:
+            arms.append((None, cur.orelse))
+            cur = None
+        elif leaves(cur.body) and rest:
+            # guard-clause spelling: `if a: return x` followed by the remaining arms as plain statements
+            if isinstance(rest[0], ast.If):
+                cur, rest = rest[0], rest[1:]
+            else:
+                arms.append((None, rest))
+                cur = None
         else:
-            if cur.orelse:
-                arms.append((None, cur.orelse))
             cur = None
     return arms
 
